@@ -767,6 +767,19 @@ class World(object):
             if ra is not None and ra[0] == "fault":
                 L.runtime_errors.append((x.xid, "retry"))
         L.on_completed(x, obs, result, wfb)
+        if x.items is not None and nctx_before is not None and x.items.get("n"):
+            # the task result seen downstream lists the item results in item order
+            new_ctx = self.snap["state"]["contexts"][nctx_before:]
+            for i, do in x.fired:
+                tr = (spec_t.get("next") or [])[i]
+                pubs = tr.get("publish") or []
+                for k, (var, vnode) in enumerate(pubs):
+                    if vnode == ["result"] and not any(v2 == var for v2, _ in pubs[k + 1:]):
+                        if not any(var in d and jeq(d[var], result) for d in new_ctx):
+                            self.report("C12", "result_in_order", "%s published %s = result() but no stored context "
+                                        "carries the item results in item order %s (stored: %s)"
+                                        % (x.key(), var, canon(result)[:120],
+                                           canon([d.get(var) for d in new_ctx if var in d])[:160]))
         if L.runtime_errors and not self.cancel_req and wfb not in ("canceling", "canceled"):
             self.note_error_processed()
         if (obs == "failed" and not x.remediated) or (x.xid in L.fail_cmd):
